@@ -8,45 +8,69 @@ open Rare.Expr
 
 /-! ### buildLookupTable -/
 
-/-- Split at `\n` the way `bufio.ScanLines` does: a final unterminated line counts, an empty
-    remainder after the last `\n` does not; one trailing `\r` is dropped from every line. -/
-def splitLinesGo : Bytes → Bytes → List Bytes
-  | [], cur => if cur.isEmpty then [] else [cur]
-  | 10 :: r, cur => cur :: splitLinesGo r []
-  | c :: r, cur => splitLinesGo r (cur ++ [c])
+/-- `bufio.MaxScanTokenSize`: a line with this many bytes (or more) before its `\n` does not fit
+    the scanner's buffer; `Scan()` then returns false (`ErrTooLong`, not reported by
+    `buildLookupTable`) and that line and everything after it are silently dropped. -/
+def maxScanTokenSize : Nat := 65536
 
+/-- `bufio.ScanLines` over the whole text: split at `\n`; a final unterminated non-empty line
+    counts, an empty remainder does not.  `cur` is the current line reversed, `n` its length. -/
+def splitLinesGo : Bytes → Bytes → Nat → List Bytes
+  | [], cur, _ => if cur.isEmpty then [] else [cur.reverse]
+  | 10 :: r, cur, _ => cur.reverse :: splitLinesGo r [] 0
+  | c :: r, cur, n => if n + 1 ≥ maxScanTokenSize then [] else splitLinesGo r (c :: cur) (n + 1)
+
+/-- `dropCR` of bufio: one trailing `\r` is removed from every line. -/
 def dropCR (l : Bytes) : Bytes :=
   match l.getLast? with
   | some 13 => l.dropLast
   | _ => l
 
-/-- `strings.Fields` for input without multi-byte white space (checked by the caller). -/
-def fieldsAscii : Bytes → Bytes → List Bytes
-  | [], cur => if cur.isEmpty then [] else [cur]
-  | c :: r, cur =>
-    if isAsciiSpace c then (if cur.isEmpty then fieldsAscii r [] else cur :: fieldsAscii r [])
-    else fieldsAscii r (cur ++ [c])
+/-- Length of the white-space rune (`unicode.IsSpace`) encoded at the head of `s`, 0 when there is
+    none: the six ASCII spaces and the UTF-8 encodings of U+0085, U+00A0, U+1680, U+2000–U+200A,
+    U+2028, U+2029, U+202F, U+205F, U+3000.  A lead byte is never a continuation byte, so the
+    decoder of `strings.FieldsFunc` always starts a rune at such a byte and a byte-wise scan sees
+    exactly the runes it sees (invalid bytes are one-byte non-space runes). -/
+def spaceLen (s : Bytes) : Nat :=
+  match s with
+  | [] => 0
+  | b :: _ =>
+    if isAsciiSpace b then 1
+    else match s with
+      | 0xC2 :: 0x85 :: _ => 2
+      | 0xC2 :: 0xA0 :: _ => 2
+      | 0xE1 :: 0x9A :: 0x80 :: _ => 3
+      | 0xE2 :: 0x80 :: x :: _ =>
+        if (0x80 ≤ x && x ≤ 0x8A) || x == 0xA8 || x == 0xA9 || x == 0xAF then 3 else 0
+      | 0xE2 :: 0x81 :: 0x9F :: _ => 3
+      | 0xE3 :: 0x80 :: 0x80 :: _ => 3
+      | _ => 0
+
+/-- `strings.Fields`: maximal runs of non-space runes.  `cur` is the current field reversed,
+    `skip` the number of bytes of a multi-byte space still to be passed over. -/
+def fieldsGo : Bytes → Bytes → Nat → List Bytes
+  | [], cur, _ => if cur.isEmpty then [] else [cur.reverse]
+  | _ :: r, cur, skip + 1 => fieldsGo r cur skip
+  | c :: r, cur, 0 =>
+    match spaceLen (c :: r) with
+    | 0 => fieldsGo r (c :: cur) 0
+    | k + 1 => if cur.isEmpty then fieldsGo r [] k else cur.reverse :: fieldsGo r [] k
 
 /-- One `scanner.Scan()` round of `buildLookupTable`: the table after the line. -/
 def lookupStep (commentPrefix : Bytes) (tbl : List (Bytes × Bytes)) (line : Bytes) : List (Bytes × Bytes) :=
   if !commentPrefix.isEmpty && commentPrefix.isPrefixOf line then tbl
-  else match fieldsAscii line [] with
+  else match fieldsGo line [] 0 with
     | [k] => tbl ++ [(k, [])]
     | [k, v] => tbl ++ [(k, v)]
     | _ => tbl
 
 /-- `buildLookupTable` as an association list in insertion order (later entries win). -/
 def buildLookupTable (content commentPrefix : Bytes) : List (Bytes × Bytes) :=
-  ((splitLinesGo content []).map dropCR).foldl (lookupStep commentPrefix) []
+  ((splitLinesGo content [] 0).map dropCR).foldl (lookupStep commentPrefix) []
 
 /-- `lookup[key]` with "later lines win". -/
 def tableGet (tbl : List (Bytes × Bytes)) (key : Bytes) : Option Bytes :=
   (tbl.reverse.find? (·.1 == key)).map (·.2)
-
-/-- Lead bytes of the UTF-8 encodings of Unicode white space (`strings.Fields` would split there),
-    and lines too long for `bufio.Scanner`'s default buffer. -/
-def lookupModelled (content : Bytes) : Bool :=
-  content.all (fun b => b != 0xC2 && b != 0xE1 && b != 0xE2 && b != 0xE3) && content.length < 65000
 
 def lookupBuilder (render : Option Bytes → Bytes) : Builder := fun args =>
   if args.length < 2 || args.length > 3 then errArgCount
@@ -59,10 +83,8 @@ def lookupBuilder (render : Option Bytes → Bytes) : Builder := fun args =>
         match evalStageIndexOrDefault args 2 [] with
         | .error m => .error m
         | .ok commentPrefix =>
-          if !lookupModelled content then .error "unmodelled:lookup-unicode-space"
-          else
-            let tbl := buildLookupTable content commentPrefix
-            ok (do let key ← a0; pure (render (tableGet tbl key)))
+          let tbl := buildLookupTable content commentPrefix
+          ok (do let key ← a0; pure (render (tableGet tbl key)))
     | _ => errArgCount
 
 def kfLookupKey : Builder := lookupBuilder fun r => r.getD []
@@ -73,6 +95,9 @@ def kfHasKey : Builder := lookupBuilder fun r => truthyStr r.isSome
 def repeatB (s : Bytes) : Nat → Bytes
   | 0 => []
   | n + 1 => s ++ repeatB s n
+
+/-- `maxRepeatBytes` of `stdlib/util.go`: `{repeat}` refuses to produce more than 1 MiB. -/
+def maxRepeatBytes : Int := 1048576
 
 def kfRepeat : Builder := fun args =>
   match args with
@@ -85,8 +110,8 @@ def kfRepeat : Builder := fun args =>
       match atoi c with
       | none => pure ErrorNum
       | some count =>
-        if count < 0 then pure ErrorValue
-        else if count * char.length > 1000000 then .panic "unmodelled:repeat-huge"
+        if count < 0 || (char.length > 0 && count > Int.tdiv maxRepeatBytes char.length) then pure ErrorValue
+        else if char.isEmpty then pure []      -- strings.Repeat("", n) = "" (and no 10^18-step loop here)
         else pure (repeatB char count.toNat))
   | _ => errArgCount
 
@@ -115,38 +140,53 @@ def extLoop : Bytes → Bytes → Bytes
 def pathExt (p : Bytes) : Bytes := extLoop p.reverse []
 
 def splitSlash : Bytes → Bytes → List Bytes
-  | [], cur => [cur]
-  | 47 :: r, cur => cur :: splitSlash r []
-  | c :: r, cur => splitSlash r (cur ++ [c])
+  | [], cur => [cur.reverse]
+  | 47 :: r, cur => cur.reverse :: splitSlash r []
+  | c :: r, cur => splitSlash r (c :: cur)
 
-/-- `filepath.Dir` = `Clean(path[:lastSlash+1])`, modelled when that prefix is already clean apart
-    from its trailing slash (no empty, `.` or `..` element); `none` otherwise. -/
-def pathDir (p : Bytes) : Option Bytes :=
-  if !p.contains 47 then some [46]
+/-- The component loop of `filepath.Clean`: empty and `.` elements vanish; `..` removes the last
+    kept element when there is one that is not itself `..`, is dropped at the root, and is kept
+    otherwise.  (`out` is the list of kept elements, last first.) -/
+def cleanLoop (rooted : Bool) : List Bytes → List Bytes → List Bytes
+  | [], out => out
+  | e :: rest, out =>
+    if e.isEmpty || e == [46] then cleanLoop rooted rest out
+    else if e == [46, 46] then
+      match out with
+      | top :: below =>
+        if top == [46, 46] then cleanLoop rooted rest (e :: out)   -- only in the unrooted case
+        else cleanLoop rooted rest below
+      | [] => if rooted then cleanLoop rooted rest [] else cleanLoop rooted rest [e]
+    else cleanLoop rooted rest (e :: out)
+
+def joinSlash : List Bytes → Bytes
+  | [] => []
+  | [e] => e
+  | e :: rest => e ++ [47] ++ joinSlash rest
+
+/-- `filepath.Clean` on a `/`-separated system, element-wise (the Go code works on bytes with a
+    write index; the kept elements are the same). -/
+def pathClean (p : Bytes) : Bytes :=
+  if p.isEmpty then [46]
   else
-    let d := (p.reverse.dropWhile (· != 47)).reverse        -- path[:i+1], ends in '/'
-    let body := d.dropLast                                  -- without that final slash
-    if body.isEmpty then some [47]                          -- "/x" → "/"
-    else
-      let elems := splitSlash body []
-      let elems' := match elems with
-        | [] :: r => r            -- leading "/" (rooted path)
-        | r => r
-      if elems'.all (fun e => !e.isEmpty && e != [46] && e != [46, 46]) then some body else none
+    let rooted := p.head? == some 47
+    let out := (cleanLoop rooted (splitSlash p []) []).reverse
+    if rooted then 47 :: joinSlash out
+    else if out.isEmpty then [46] else joinSlash out
 
-def pathHelper (f : Bytes → Option Bytes) : Builder := fun args =>
+/-- `filepath.Dir` = `Clean(path[:lastSlash+1])`. -/
+def pathDir (p : Bytes) : Bytes :=
+  pathClean (p.reverse.dropWhile (· != 47)).reverse
+
+def pathHelper (f : Bytes → Bytes) : Builder := fun args =>
   match args with
-  | [a] => ok (do
-    let v ← a
-    match f v with
-    | some r => pure r
-    | none => .panic "unmodelled:path-clean")
+  | [a] => ok (do let v ← a; pure (f v))
   | _ => errArgCount
 
 def table : Table := [
   ("lookup", kfLookupKey), ("haskey", kfHasKey), ("repeat", kfRepeat),
-  ("basename", pathHelper fun p => some (pathBase p)),
+  ("basename", pathHelper pathBase),
   ("dirname", pathHelper pathDir),
-  ("extname", pathHelper fun p => some (pathExt p))]
+  ("extname", pathHelper pathExt)]
 
 end Rare.Expr.Funcs.Misc
